@@ -346,11 +346,8 @@ class LabelSourceMapping():
         """ add a record """
         if gene_id not in self.data:
             self.data[gene_id] = {}
-            if label in self.data[gene_id]:
-                raise ValueError(
-                    f"Duplicated variable label found for {gene_id}, {label}"
-                )
-        self.data[gene_id][label] = source
+        if label not in self.data[gene_id]:
+            self.data[gene_id][label] = source
 
     def add_variant(self, variant:seqvar.VariantRecord, source:str):
         """ add variant """
